@@ -28,7 +28,7 @@ Definition ptok_close (m g : ptok) : bool :=
   match m, g with
   | Tg a, Tg b | TG a, TG b | Tgs a, Tgs b | Tw a, Tw b | TM a, TM b => qclose a b
   | Trg a1 a2 a3, Trg b1 b2 b3 | TRG a1 a2 a3, TRG b1 b2 b3 => qclose a1 b1 && qclose a2 b2 && qclose a3 b3
-  | TJ a, TJ b | Tj a, Tj b | Tpaint a, Tpaint b => (a =? b)%Z
+  | TJ a, TJ b | Tj a, Tj b | Tpaint a, Tpaint b | Tscn a, Tscn b | TSCN a, TSCN b => (a =? b)%Z
   | Td d1 p1, Td d2 p2 => ql_close d1 d2 && qclose p1 p2
   | Tpath a, Tpath b => is_wild a || geo_close a b
   | _, _ => false
@@ -72,7 +72,19 @@ Definition col_close255 (a b : col3) : bool :=
   let '(a1, a2, a3) := a in let '(b1, b2, b3) := b in
   let c x y := Qle_bool (Qabs (x - y)) ((1 # 255) + eps) in c a1 b1 && c a2 b2 && c a3 b3.
 
-Definition pop_flags (f : Q) (skipgeo : bool) (got want : pop) : Z :=
+(** geometry with an additional absolute slack [ea]: SVG prints y' = h - y with 8 significant digits, so after flipping back
+    the error is relative to h, not to the (possibly small) y *)
+Definition qclose_e (ea a b : Q) : bool := Qle_bool (Qabs (a - b)) (ea + eps + eps * Qabs b).
+Fixpoint ql_close_e (ea : Q) (a b : list Q) : bool :=
+  match a, b with [], [] => true | x :: a', y :: b' => qclose_e ea x y && ql_close_e ea a' b' | _, _ => false end.
+Fixpoint geo_close_e (ea : Q) (a b : geo) : bool :=
+  match a, b with
+  | [], [] => true
+  | x :: a', y :: b' => (fst x =? fst y)%Z && ql_close_e ea (snd x) (snd y) && geo_close_e ea a' b'
+  | _, _ => false
+  end.
+
+Definition pop_flags_e (ea f : Q) (skipgeo : bool) (got want : pop) : Z :=
   let kind :=
     match pk got, pk want with
     | KFill a, KFill b => bit (negb (Bool.eqb a b)) 64
@@ -81,14 +93,16 @@ Definition pop_flags (f : Q) (skipgeo : bool) (got want : pop) : Z :=
                    && dash_close (map (fun x => x * f) d1) (p1 * f) d2 p2)) 8
     | _, _ => 64%Z
     end in
-  (kind + bit (negb (skipgeo || geo_close (scale_geo f (pgeo got)) (pgeo want))) 4
+  (kind + bit (negb (skipgeo || geo_close_e ea (scale_geo f (pgeo got)) (pgeo want))) 4
    + bit (negb (col_close (pcol got) (pcol want))) 16 + bit (negb (qclose (palpha got) (palpha want))) 32)%Z.
-Fixpoint pops_flags (f : Q) (skipgeo : bool) (got want : list pop) : Z :=
+Definition pop_flags := pop_flags_e 0.
+Fixpoint pops_flags_e (ea f : Q) (skipgeo : bool) (got want : list pop) : Z :=
   match got, want with
   | [], [] => 0%Z
-  | g :: got', w :: want' => Z.lor (pop_flags f skipgeo g w) (pops_flags f skipgeo got' want')
+  | g :: got', w :: want' => Z.lor (pop_flags_e ea f skipgeo g w) (pops_flags_e ea f skipgeo got' want')
   | _, _ => 2%Z
   end.
+Definition pops_flags := pops_flags_e 0.
 
 Definition has_bad (l : list pop) : bool := existsb (fun p => match pk p with KBad => true | _ => false end) l.
 Definition n_fallback (ds : list draw) : Z :=
@@ -118,7 +132,7 @@ Definition judge (c : case12) : list Z :=
          defaults), the geometry flipped back to canvas space *)
       let got := map (fun p => mkPop (pk p) (flip_geo h (pgeo p)) (pcol p) (palpha p)) (exec_svg els) in
       let want := flat_map svg_spec dr in
-      let pf := pops_flags 1 false got want in
+      let pf := pops_flags_e (eps * h) 1 false got want in
       (* colours: exact for opaque ones, within 1/255 for rgba() *)
       let colbad := negb (list_close (fun g w => col_close255 (pcol g) (pcol w)) got want) in
       let pf := Z.lor (Z.land pf (Z.lnot 16)) (bit colbad 16) in
